@@ -377,16 +377,51 @@ func (x *cx) arrived() error {
 	if err := p.Ping(step); err != nil {
 		return err
 	}
+	// the exchange decided by the hook is over (a v5 PUBREC >= 0x80 ends it without PUBREL): the client re-uses the
+	// packet identifier for a message the hook does not object to; that one is an event of its own
+	followUp := (c.Verdict == "reject" || c.Verdict == "drop") && pkt.QoS > 0
+	if followUp {
+		fromEv := b.Log.Len()
+		ack2, err := p.Publish(&mqttx.Packet{Topic: "ok/topic", QoS: pkt.QoS, PacketID: pkt.PacketID, Payload: []byte("after-verdict")}, step)
+		if err != nil {
+			x.add(fmt.Sprintf("arrived.followup_no_ack:first=%s:qos=%d", c.Verdict, pkt.QoS), fmt.Sprintf("publish re-using packet id %d after the %s exchange got no ack: %v", pkt.PacketID, c.Verdict, err))
+			return nil
+		}
+		if c.V == 5 && ack2.Code != 0 {
+			x.add(fmt.Sprintf("arrived.followup_ack_code:first=%s:qos=%d:code=0x%02x", c.Verdict, pkt.QoS, ack2.Code), fmt.Sprintf("a message with a matching subscriber that no hook objects to is acknowledged with 0x%02x (packet id %d re-used after a %s exchange)", ack2.Code, pkt.PacketID, c.Verdict))
+		}
+		if err := p.Ping(step); err != nil {
+			return err
+		}
+		n := 0
+		for _, e := range b.Log.Events()[fromEv:] {
+			if e.Kind == "OnMsgArrived" && e.Payload == "after-verdict" {
+				n++
+			}
+		}
+		if n != 1 {
+			x.add(fmt.Sprintf("arrived.followup_hook_count:got=%d:first=%s:qos=%d", n, c.Verdict, pkt.QoS), fmt.Sprintf("OnMsgArrived fired %d times for a new PUBLISH that re-uses packet id %d after the %s exchange ended", n, pkt.PacketID, c.Verdict))
+		}
+		x.obs["arrived_followups"]++
+	}
 	// barrier towards the observer
 	b.Publish("sentinel", "sentinel", 1, false)
 	if err := obs.WaitPayload("sentinel", step); err != nil {
 		return err
 	}
 	var seen []*mqttx.Packet
+	after := 0
 	for _, r := range obs.Publishes() {
+		if string(r.P.Payload) == "after-verdict" {
+			after++
+			continue
+		}
 		if string(r.P.Payload) != "sentinel" {
 			seen = append(seen, r.P)
 		}
+	}
+	if followUp && after != 1 {
+		x.add(fmt.Sprintf("arrived.followup_delivery:got=%d:first=%s:qos=%d", after, c.Verdict, pkt.QoS), fmt.Sprintf("the message that re-uses packet id %d after the %s exchange was delivered %d times, want 1", pkt.PacketID, c.Verdict, after))
 	}
 	ret := func(t string) string {
 		m := b.Srv.RetainedService().GetRetainedMessage(t)
@@ -535,7 +570,7 @@ func allCases() []Case {
 		for q := byte(0); q < 3; q++ {
 			for _, retain := range []bool{false, true} {
 				for variant := 0; variant < 2; variant++ {
-					for _, code := range []byte{0, 0x87, 0x97} {
+					for _, code := range []byte{0, 0x80, 0x87, 0x97} {
 						cs = append(cs, Case{Kind: "arrived", V: v, Verdict: "reject", Code: code, QoS: q, Retain: retain, Variant: variant})
 					}
 					cs = append(cs, Case{Kind: "arrived", V: v, Verdict: "drop", QoS: q, Retain: retain, Variant: variant})
@@ -559,7 +594,16 @@ func RunEnforcement(r *monitor.Run) {
 		var keep []Case
 		for _, c := range cs {
 			k := fmt.Sprintf("%s|%s|%d|%v|%v", c.Kind, c.Verdict, c.V, c.Kind == "auth" && c.Variant >= 2 && c.Code > 0x80 && c.Code != 0x87, c.Verdict == "enhanced_reject" && c.Variant == 1)
-			if seen[k] < 3 {
+			lim := 3
+			if c.Kind == "arrived" && (c.Verdict == "reject" || c.Verdict == "drop") {
+				// every QoS and every reason code once (retain / variant rotate)
+				k += fmt.Sprintf("|q%d|c%d", c.QoS, c.Code)
+				lim = 1
+				if (int(c.QoS)+int(c.Code))%2 == 1 && !(c.Retain && c.Variant == 1) {
+					continue // odd ones take the last (retain, variant) combination, even ones the first
+				}
+			}
+			if seen[k] < lim {
 				keep = append(keep, c)
 			}
 			seen[k]++
